@@ -27,6 +27,7 @@ STATE_TYPES = (
 COARSE = {"state", "cache", "self", "provider", "pool", "solver"}
 # operations that modify through a shared reference (RefCell / Cell / frozen maps / arenas)
 INTERIOR_MUT = {"borrow_mut", "insert", "insert_copy", "alloc", "set", "replace", "take", "push", "get_or_insert_with", "swap"}
+CAPACITY_ONLY = {"reserve", "reserve_exact", "shrink_to_fit", "shrink_to", "try_reserve", "try_reserve_exact"}
 SIGNAL_CALLS = {"should_cancel_with_value", "are_dependencies_available_for"}
 _MACRO_NOISE = ("assert", "tracing", "valueset", "event", "debug_assert", "unreachable", "panic", "format_args", "log")
 
@@ -100,6 +101,8 @@ def writes(b, sf):
     for i, t in b.calls():
         if _noise(t) or not t["args"]:
             continue
+        if t.get("f") and t["f"]["name"] in CAPACITY_ONLY:
+            continue        # capacity hints do not change the contents
         for a in t["args"][:1]:
             p = operand_place(a)
             if p is None or "p" in p:
@@ -144,6 +147,21 @@ def all_signatures(crate):
         cr, wr = signature(crate, k, sf)
         out[k] = {"cond_reads": sorted(cr), "writes": sorted(wr)}
     return out
+
+
+def _own_fields(crate, key, sf):
+    """Field names of the receiver type of a `&self` method (empty for `&mut self` / free functions)."""
+    for b in crate.bodies:
+        if b.key == key and b.kind in ("Fn", "AssocFn"):
+            ins = (b.d.get("sig") or {}).get("inputs") or []
+            if not ins or not ins[0].startswith("&") or ins[0].startswith("&mut "):
+                return set()
+            adt = b.d.get("impl_adt")
+            a = crate.adts.get(adt) if adt else None
+            if not a:
+                return set()
+            return {f["name"] for v in a["variants"] for f in v["fields"]}
+    return set()
 
 
 _TABLE = None
@@ -199,6 +217,11 @@ def check(ctx, crate, rule, prefixes, tag=""):
             ok_c |= set(tb[g]["cond_reads"])
             ok_w |= set(tb[g]["writes"])
         new_c, new_w = sorted(cr - ok_c), sorted(wr - ok_w)
+        if new_c and not wr:
+            # a read-only observer (`&self`, modifies nothing) may consult another field of its *own* structure: that cannot
+            # skip or redirect any work of the solver, it only changes how the observer computes its answer
+            own = _own_fields(crate, k, sf)
+            new_c = [x for x in new_c if x not in own]
         if new_c:
             ctx.ob(R, k, "control-flow-depends-on:%s" % ",".join(new_c), False, "",
                    "a branch in this function now depends on state it did not depend on when the rules were reviewed: %s" % ", ".join(new_c))
